@@ -121,6 +121,7 @@ def run(ctx):
     original_text_source(ctx, "R08-c")
     blank_line_clamp(ctx, "R08-d")
     normalisation_table_searched_whole(ctx, "R08-e")
+    newline_runs_have_one_producer(ctx, "R08-f")
     # operand of the Auto detection at the only call site
     if f is not None:
         for c in f.calls():
@@ -332,3 +333,33 @@ def normalisation_table_searched_whole(ctx, rid):
                             "`%s` picks one element of the table; a byte order mark (or any earlier normalisation) shifts the entry "
                             "that is meant: a BOM + CRLF file is taken for an LF file" % short(c.name).rsplit("::", 1)[-1], [c.loc()])
     r.floor(rid, n, 2, "functions consulting SourceFile::normalized_pos")
+
+
+def newline_runs_have_one_producer(ctx, rid):
+    """R08-f: the only place that emits a computed number of line breaks is the one whose count R08-d bounds"""
+    from common import expr_key
+    p, r = ctx.p, ctx.r
+    r.rule(rid, "who-may-produce: `str::repeat` on a line-break literal (\"\\n\", \"\\r\\n\") occurs only in "
+                "FmtVisitor::push_vertical_spaces, whose count is proven bounded by blank_lines_upper_bound (R08-d) and which the "
+                "statement's blank-line clause is about.  Everywhere else line breaks are written one at a time as part of a fixed "
+                "separator: inside lists and between comment groups at most one blank line is put back, whatever the bound")
+    n = 0
+    sites = []
+    for f in p.by_crate["rustfmt_nightly"]:
+        for c in f.calls():
+            if not (c.name.endswith("::repeat") and "str" in c.name) or not c.args:
+                continue
+            n += 1
+            k = expr_key(f, c.args[0])
+            if "'\\n'" in k or "\\r\\n" in k or k in ("k:{'str': '\\n'}",):
+                sites.append((f, c))
+    owners = sorted({short(f.id).split("::{closure")[0] for f, c in sites})
+    for f, c in sites:
+        ok = short(f.id).split("::{closure")[0].endswith("FmtVisitor<'a>>::push_vertical_spaces")
+        r.instance(rid, "%s repeats a line break" % short(f.id).split("::{closure")[0], "ok" if ok else "violation", c.loc())
+        if not ok:
+            r.violation(rid, "%s emits a computed number of line breaks" % short(f.id).split("::{closure")[0],
+                        "`\"\\n\".repeat(n)` outside push_vertical_spaces: nothing bounds n by what the statement allows at that "
+                        "position (one blank line inside lists and comment runs)", [c.loc()])
+    r.floor(rid, n, 3, "str::repeat calls")
+    r.floor(rid, len(sites), 1, "line-break repetitions (push_vertical_spaces)")
